@@ -484,6 +484,38 @@ pub fn run(run: &mut Run) {
             }
         });
     }
+    // (f) the longest records: boards whose every rank alternates man / empty (71-character board
+    // field), every colouring by rank halves, with short, long and omitted counters
+    run.par_shards("LONGEST FEN records (alternating ranks: 2^8 boards x 2 sides x 6 counter / rights forms)", 16, |ctx, sh| {
+        for code in (0..256usize).filter(|c| c % 16 == sh) {
+            let mut rows: Vec<String> = Vec::new();
+            for rank in (0..8).rev() {
+                let black = rank >= 4;
+                let men = if black { ["n", "p", "b", "r", "q", "p", "n", "p"] } else { ["N", "P", "B", "R", "Q", "P", "N", "P"] };
+                let king = if black { "k" } else { "K" };
+                let odd = code >> rank & 1 != 0;
+                let mut row = String::new();
+                for fl in 0..8usize {
+                    if (fl % 2 == 1) == odd {
+                        row.push('1');
+                    } else if (rank == 0 || rank == 7) && (fl == 0 || fl == 1) && row.chars().all(|c| c == '1') {
+                        row.push_str(king);
+                    } else {
+                        // pawns stay off the first and last rank
+                        let m = men[(fl + rank) % 8];
+                        row.push_str(if (rank == 0 || rank == 7) && (m == "p" || m == "P") { if black { "n" } else { "N" } } else { m });
+                    }
+                }
+                rows.push(row);
+            }
+            let board = rows.join("/");
+            for side in ["w", "b"] {
+                for tail in ["- - 0 1", "- - 65535 65535", "- - 10000", "- -", "- - 99999 1", "KQkq - 65535 65535"] {
+                    fen_text(ctx, &format!("{} {} {}", board, side, tail));
+                }
+            }
+        }
+    });
     // (e) long strings: runs of one symbol, alone and around / inside canonical stems; FEN fields
     // replaced by runs; a UCI list of k legal tokens
     {
